@@ -75,8 +75,13 @@ Definition wf_arg (mailbox : bool) (a : arg) : bool :=
   (negb mailbox || arg_refused a || equal_fold_ascii (a_val a) INBOX ||
    match utf7_decode (a_val a) with Some _ => true | None => false end).
 
+(* a tag is an atom without "+" (RFC 3501: tag = 1*<any ASTRING-CHAR except "+">); the server
+   refuses tags containing "+" *)
+Definition has_plus (s : bytes) : bool := existsb (fun b => b2n b =? 43) s.
+Definition tag_ok (s : bytes) : bool := atom_ok s && negb (has_plus s).
+
 Definition wf_cmd (c : ccmd) : bool :=
-  atom_ok (c_tag c) &&
+  tag_ok (c_tag c) &&
   match arity (c_name c) with
   | Some n => Nat.eqb n (length (c_args c)) && forallb (wf_arg (is_mailbox_cmd (c_name c))) (c_args c)
   | None => false
